@@ -674,9 +674,27 @@ func pickPCT(rg *rng, d, est int) func(*sched, []*thread) *thread {
 // barging entrant, meets a gate whose only signalled waiter has not run yet)
 func pickGate(rg *rng) func(*sched, []*thread) *thread {
 	return func(s *sched, ready []*thread) *thread {
-		var block, exits, rest, rewake []*thread
+		var block, exits, rest, rewake, incs []*thread
+		for _, t := range ready {
+			if t.at == "blockcs" {
+				incs = append(incs, t)
+			}
+		}
+		if len(incs) > 0 {
+			// a waiter stands between its capacity test and its Wait: run a release now if there is one
+			for _, t := range ready {
+				if t.at == "exit" && rg.below(10) < 9 {
+					return t
+				}
+			}
+			if rg.below(4) != 0 {
+				return incs[rg.below(len(incs))]
+			}
+		}
 		for _, t := range ready {
 			switch {
+			case t.at == "blockcs":
+				rest = append(rest, t)
 			case t.at == "rewake":
 				rewake = append(rewake, t)
 			case t.at == "enter" && s.capacity == 0:
@@ -1428,12 +1446,21 @@ func (b *tailBuffer) String() string {
 	return strings.ReplaceAll(h, "\n", " | ")
 }
 
-func (p *parent) runProject(seed uint64, n, maxNodes int, limit time.Duration, fixed string) {
+func (p *parent) runProject(seed uint64, n, maxNodes int, limit time.Duration, fixed string, cpus string) {
 	args := []string{"-child", "project", "-seed", strconv.FormatUint(seed, 10), "-n", strconv.Itoa(n), "-maxnodes", strconv.Itoa(maxNodes)}
 	if fixed != "" {
 		args = append(args, "-params", fixed)
 	}
 	cmd := exec.Command(p.exe, args...)
+	if cpus != "" {
+		// dry runs of wide fan-outs, pinned so that "wider than the CPU count" stays small
+		args = append(args, "-drywide")
+		if _, err := exec.LookPath("taskset"); err == nil {
+			cmd = exec.Command("taskset", append([]string{"-c", cpus, p.exe}, args...)...)
+		} else {
+			cmd = exec.Command(p.exe, args...)
+		}
+	}
 	cmd.Stderr = os.Stderr
 	stdout, _ := cmd.StdoutPipe()
 	if err := cmd.Start(); err != nil {
@@ -1464,6 +1491,7 @@ func main() {
 	corpusFile := flag.String("corpus", "", "past failures (same format), run first")
 	replay := flag.String("replay", "", "json: {params, mode, schedule|cpus}")
 	fixedParams := flag.String("params", "", "stress child: run this graph every time")
+	dryWide := flag.Bool("drywide", false, "project child: only dry runs of fan-outs wider than the CPU count")
 	dumpJobs := flag.Bool("dumpjobs", false, "print the controlled jobs of this tier and seed instead of running them")
 	flag.Parse()
 
@@ -1473,7 +1501,7 @@ func main() {
 	case "stress":
 		os.Exit(childStress(*seed, *n, *maxNodes, *fixedParams))
 	case "project":
-		os.Exit(childProject(*seed, *n, *maxNodes, *fixedParams))
+		os.Exit(childProject(*seed, *n, *maxNodes, *fixedParams, *dryWide))
 	case "":
 	default:
 		fmt.Fprintln(os.Stderr, "unknown -child mode", *child)
@@ -1501,8 +1529,14 @@ func main() {
 		if in.Mode == "job" {
 			sd, _ := strconv.ParseUint(in.Seed, 10, 64)
 			p.runJobs([]job{{Stream: "runner.replay", Params: in.Params, Strat: in.Strat, Seed: sd, Guide: in.Guide}}, 1, time.Minute, 1)
+		} else if in.Mode == "project-dry" {
+			cpus := "0"
+			if in.Cpus > 1 {
+				cpus = "0-" + strconv.Itoa(in.Cpus-1)
+			}
+			p.runProject(*seed, 50, 1, 2*time.Minute, "", cpus)
 		} else if in.Mode == "project" {
-			p.runProject(*seed, 200, 1, 2*time.Minute, in.Params)
+			p.runProject(*seed, 200, 1, 2*time.Minute, in.Params, "")
 		} else if in.Mode == "schedule" {
 			p.runJobs([]job{{Stream: "runner.replay", Params: in.Params, Strat: "guide", Guide: in.Schedule}}, 1, time.Minute, 1)
 		} else {
@@ -1659,7 +1693,14 @@ func main() {
 	if !quick {
 		pn = 6000
 	}
-	p.runProject(rg.next(), pn, 9, 60*time.Second+time.Duration(pn)*20*time.Millisecond, "")
+	p.runProject(rg.next(), pn, 9, 60*time.Second+time.Duration(pn)*20*time.Millisecond, "", "")
+	dn := 25
+	if !quick {
+		dn = 400
+	}
+	for _, cpus := range []string{"0", "0-1", "0-2"} {
+		p.runProject(rg.next(), dn, 1, 60*time.Second+time.Duration(dn)*50*time.Millisecond, "", cpus)
+	}
 
 	p.stats["wall_ms"] = int(time.Since(start).Milliseconds())
 	st := map[string]any{}
